@@ -67,7 +67,7 @@ WEIGHTS = {"paint": 8, "update_attrs": 0.2, "swap": 0.5, "add_node": 4, "delete_
 
 
 def plan(tier, seed):
-    return common.session_plan(PROP, tier, seed, quick=1200, thorough=16000)
+    return common.session_plan(PROP, tier, seed, quick=3000, thorough=32000)
 
 
 def run_shard(spec):
